@@ -125,18 +125,41 @@ Proof.
   - symmetry. apply in_rev.
 Qed.
 
-(* bit i (in the order of the format) is set iff the i-th name of the table is requested; no bit above 7 *)
+(* bit i (in the order of the format) is set iff the i-th name of the table is requested: a sweep over the 256 lists
+   of 8 booleans x 3 formats x 8 positions (vm_compute), lifted through unpackbits (packbits bs) = bs *)
+Definition bits_mask (f : fmt) (bs : list bool) : Z :=
+  fold_right Z.add 0 (map (fun i => if nth i bs false then 2 ^ bitpos f i else 0) (seq 0 8)).
+
+Lemma unpack_of_pack bs : List.length bs = 8%nat -> unpackbits (packbits bs) = bs.
+Proof.
+  intro H. do 9 (destruct bs as [|? bs]; try discriminate H).
+  repeat match goal with b : bool |- _ => destruct b end; vm_compute; reflexivity.
+Qed.
+
+Lemma bits_mask_sweep :
+  forallb (fun f => forallb (fun m => forallb (fun i =>
+     Bool.eqb (Z.testbit (bits_mask f (unpackbits m)) (bitpos f i)) (nth i (unpackbits m) false)) (seq 0 8)) bytes)
+          [FV4; FV3; FV2] = true.
+Proof. vm_compute. reflexivity. Qed.
+
+Lemma bits_mask_testbit f bs i : List.length bs = 8%nat -> (i < 8)%nat ->
+  Z.testbit (bits_mask f bs) (bitpos f i) = nth i bs false.
+Proof.
+  intros L Hi. rewrite <- (unpack_of_pack bs L).
+  pose proof bits_mask_sweep as S. rewrite forallb_forall in S.
+  assert (In f [FV4; FV3; FV2]) as Hf by (destruct f; simpl; auto). specialize (S f Hf).
+  rewrite forallb_forall in S. specialize (S (packbits bs) (in_bytes _ (packbits_range bs L))).
+  rewrite forallb_forall in S. apply Bool.eqb_prop. apply S. apply in_seq. lia.
+Qed.
+
 Lemma table_mask_testbit f known wanted i : (i < 8)%nat ->
   Z.testbit (table_mask f known wanted) (bitpos f i) = mem_string (nth i known "") wanted.
 Proof.
-  intro Hi. unfold table_mask. cbn [seq map fold_right].
-  do 8 (destruct i as [|i];
-        [generalize (mem_string (nth 0 known "") wanted) (mem_string (nth 1 known "") wanted)
-                    (mem_string (nth 2 known "") wanted) (mem_string (nth 3 known "") wanted)
-                    (mem_string (nth 4 known "") wanted) (mem_string (nth 5 known "") wanted)
-                    (mem_string (nth 6 known "") wanted) (mem_string (nth 7 known "") wanted);
-         intros b0 b1 b2 b3 b4 b5 b6 b7; destruct f, b0, b1, b2, b3, b4, b5, b6, b7; reflexivity|]).
-  lia.
+  intro Hi.
+  change (table_mask f known wanted)
+    with (bits_mask f (map (fun j => mem_string (nth j known "") wanted) (seq 0 8))).
+  rewrite bits_mask_testbit by (auto; rewrite map_length, seq_length; reflexivity).
+  do 8 (destruct i as [|i]; [reflexivity|]). lia.
 Qed.
 
 (* ---------- the marking loop: per name vs around the whole loop ---------- *)
